@@ -168,14 +168,8 @@ class JobControl:
         return result
 
     def has_jobs(self) -> bool:
-        result = True
-        if self._acquire_lock():
-            try:
-                result = (len(self._queue) > 0 or len(self._background) > 0
-                          or self._active_agent is not None)
-            finally:
-                self._release_lock()
-        return result
+        return (len(self._queue) > 0 or len(self._background) > 0 or
+                self._active_agent is not None)
 
     def _run_next_job(self) -> None:
         if self._acquire_lock():
